@@ -150,3 +150,16 @@ func (i SignerInfo) AuthenticatedAttributesBytes() ([]byte, error) {
 		Bytes:      raw.Bytes,
 	})
 }
+
+// hasEmptyAuthenticatedAttributes reports whether the SignerInfo was parsed
+// from an encoding that carries the [0] field with nothing in it
+func (i SignerInfo) hasEmptyAuthenticatedAttributes() bool {
+	if i.RawContent == nil || len(i.AuthenticatedAttributes) != 0 {
+		return false
+	}
+	var seq []asn1.RawValue
+	if _, err := asn1.Unmarshal(i.RawContent, &seq); err != nil || len(seq) < 4 {
+		return false
+	}
+	return seq[3].Class == asn1.ClassContextSpecific && seq[3].Tag == 0
+}
